@@ -99,7 +99,7 @@ def check_case(case):
 
 @st.composite
 def cases(draw, switches):
-    c = draw(full.full_programs(switches, max_lines=8, operand_depth=2))
+    c = draw(full.full_programs(switches, max_lines=8, operand_depth=2, temp_bias=draw(st.sampled_from([0, 0, 4, 8]))))
     c["options"] = draw(option_set())
     c["paren_unary"] = "paren_unary" in switches
     return c
